@@ -69,6 +69,8 @@ class Gen:
         for i in (ids or self.ids):
             h = hx(i)
             out += ["has:" + h, "msg:" + h, "term:" + h, "ref:" + h]
+            # the dash-prefixed spelling is never a key of the registry (terms are stored under their bare name)
+            out += ["has:" + hx("-" + i), "msg:" + hx("-" + i)]
             if is_upper(h):
                 out.append("call:" + h)
             for a in ATTRS[:3] + ["zz"]:
